@@ -124,6 +124,7 @@ def model_runs(tier):
 
 
 CHECK = PropertyCheck(
+    whole_run_clauses=('budget_exceeded', 'evaluation_after_budget_exhausted', 'spurious_TOO_FEW_REALIZATIONS', 'failure_not_reported_by_exit_code', 'spurious_MAX_FUNCTIONS_REACHED'),
     prop="C14", trace_module="Trace_C14", drive=drive, model_runs=model_runs,
     rule=("TLC model-checks OptStep.tla (budget respected, TOO_FEW iff a delivered evaluation failed, failing results delivered, "
           "documented exits) for every request pattern x failing evaluation index x failure class {threshold, filter left empty, stddev "
